@@ -11,6 +11,7 @@ TV: random sequences (selector writes, incrementing walks across 63->0, read-bac
 0..300 stops of several colour models, dyadic and non-dyadic geometries) through Generator ->
 Renderer and Generator -> Encoder (model run over the recorded calls), optionally through
 DestinationLogger; every helper return value and post-state is judged by TV_Renderer."""
+import json
 from lib import vlib, gencheck
 
 
@@ -35,6 +36,25 @@ def run(ctx):
             # gradient image aligned to the rectangle's corner, and with the paint the registers prescribe
             ctx.violation("rendered:%s:%s" % (d.get("what"), d.get("id")),
                           "rendering the written gradient: %s" % d.get("what"), gencheck.short(d))
+    # "when rendered": gradients written by the helpers, painted by a real Renderer with one pixel per unit, probed at the
+    # pixels whose centres are the points the property names (centre: 0; end of the radius vector, ends of both axes: 1;
+    # points on a perpendicular: the same offset) - judged exactly by TV_Gradient (the directed part of C15's driver)
+    import glob, os
+    sub = os.path.join(ctx.tmp, "helperpix")
+    os.makedirs(sub, exist_ok=True)
+    ctx.run_harness(["drive-c15", "-out", sub, "-shards", "2", "-n", "0"], timeout=600)
+    hfiles = sorted(glob.glob(os.path.join(sub, "c15.*.ndjson")))
+    hev, hdiags, _ = vlib.tv_shards(ctx, "TV_Gradient", "TV_Gradient", hfiles)
+    nhelper = 0
+    for d in hdiags:
+        e = d.get("ev", {})
+        if str(e.get("path", "")).startswith("Generator."):
+            nhelper += 1
+            if d.get("diag") != "unjudged":
+                ctx.violation("helperpix:%s:%s:spread=%s:%s,%s" % (e.get("path"), d.get("what"), e.get("spread"), e.get("x"), e.get("y")),
+                              "helper gradient rendered: %s" % d.get("what"), d)
+            else:
+                raise vlib.Broken("a helper pixel was not judged: %s" % json.dumps(d)[:300])
     mc = ctx.mc[-1]
     st = r["summary"]["stats"]
     cov = dict(states=mc["distinct"], transitions=max(1, mc["generated"]),
